@@ -97,11 +97,22 @@ func c12(c *core.Ctx) {
 		core.ComputeParamLenHints(p.LibFuncs("inprocgrpc"))
 		seenH := map[*ssa.Function]bool{}
 		epsR1 := append([]ep{}, eps...)
-		for _, e := range append([]ep{}, eps...) {
+		// the HTTP client's entry points take the caller's method string as well (it becomes part of the URL, and
+		// of what per-call credentials are asked about)
+		for _, ct := range channelTypes(p, "httpgrpc") {
+			for _, m := range []string{"Invoke", "NewStream"} {
+				if f := declaredMethod(p, ct, m); f != nil {
+					epsR1 = append(epsR1, ep{typeKey(ct) + "." + m, f})
+				}
+			}
+		}
+		core.ComputeParamLenHints(p.LibFuncs("internal"))
+		for i := 0; i < len(epsR1) && i < 40; i++ {
+			e := epsR1[i]
 			core.Instrs(e.fn, func(in ssa.Instruction) {
 				if call, ok := in.(*ssa.Call); ok {
 					h := core.InfoOf(&call.Call).Static
-					if h == nil || h.Blocks == nil || !core.PkgIs(h, "inprocgrpc") || seenH[h] || h.Signature.Recv() != nil {
+					if h == nil || h.Blocks == nil || !(core.PkgIs(h, "inprocgrpc") || core.PkgIs(h, "internal") || core.PkgIs(h, "httpgrpc")) || seenH[h] || h.Signature.Recv() != nil || !p.IsLibFile(h.Pos()) {
 						return
 					}
 					for _, a := range call.Call.Args {
